@@ -23,11 +23,12 @@ def main(argv=None) -> int:
     except ImportError as e:
         print(f"ANALYSIS-ERROR property={pid}: no rule pack ({e})")
         return 2
+    want = None
     if args.replay:
         with open(args.replay) as f:
             want = json.load(f)
         print(f"replaying {want.get('rule')} {want.get('key')} (recorded at {want.get('where')})")
-    return run_check(pid, args.tier, lambda chk: mod.run(chk))
+    return run_check(pid, args.tier, lambda chk: mod.run(chk), replay=want)
 
 
 if __name__ == "__main__":
